@@ -1,0 +1,76 @@
+//go:build verif
+
+package bank
+
+// Contracts for the deductive checker in /verif (comment-only; compiled only with -tags verif).
+// C05-run / C16: the entry points of the bank precompile - Run (dispatch, entry conditions of the query contracts, flush, gas
+// charging, no state change), IsTransaction, RequiredGas. The query contracts (tag c16q) are USED here.
+
+/*@
+specfunc BankIsQuery(n string) bool = n == "balances" || n == "totalSupply" || n == "supplyOf"
+
+// the bank precompile has no state-changing method: nothing is a transaction, so RunSetup admits every method in read-only frames
+func (Precompile).IsTransaction
+    ensures exact: !result
+
+// RequiredGas (called by vm.runPrecompiledContract with the raw call data, before Run): call data shorter than a selector and unknown
+// selectors cost nothing here (Run refuses them); each query costs its constant
+func (Precompile).RequiredGas
+    requires golen: 0 <= len(input) && len(input) <= 9223372036854775807
+    ensures short: len(input) < 4 ==> result == 0
+    ensures unknown: len(input) >= 4 && ret(MethodById, 1, 1) != nil ==> result == 0
+    ensures balances: len(input) >= 4 && ret(MethodById, 1, 1) == nil && ret(MethodById, 1, 0).Name == "balances" ==> result == 2851
+    ensures total_supply: len(input) >= 4 && ret(MethodById, 1, 1) == nil && ret(MethodById, 1, 0).Name == "totalSupply" ==> result == 2477
+    ensures supply_of: len(input) >= 4 && ret(MethodById, 1, 1) == nil && ret(MethodById, 1, 0).Name == "supplyOf" ==> result == 2477
+    ensures other: len(input) >= 4 && ret(MethodById, 1, 1) == nil && !BankIsQuery(ret(MethodById, 1, 0).Name) ==> result == 0
+
+// every query consumes SDK gas on the meter of the context it is given (a larger frame: nothing to re-verify)
+extend func (Precompile).Balances
+    modifies gasw
+extend func (Precompile).TotalSupply
+    modifies gasw
+extend func (Precompile).SupplyOf
+    modifies gasw
+
+// ---- Run. Preconditions: facts of the call chain vm.EVM.Call / StaticCall -> runPrecompiledContract -> Run and of the embedded abi.json.
+func (Precompile).Run
+    requires wf: evm != nil && contract != nil
+    requires sdb: isdyn(evm.StateDB, *SDB) ==> dyn(evm.StateDB, *SDB) != nil && ctx_height(dyn(evm.StateDB, *SDB).ctx) >= 0
+    requires golen: len(contract.Input) >= 0
+    requires abi_plain: p.ABI.Fallback.Type != 1 && p.ABI.Receive.Type != 2
+    // store invariant of the erc20 module that SupplyOf's C16 clauses rest on (A-erc20-indexes, see the c16q contract), needed of the
+    // store the query reads: the flushed one
+    requires e20_indexes: forall xx Ctx, dd string :: len(erc20_denom_id(sdb_flush(cstate, sdb_pending), xx, dd)) != 0 && erc20_pair_found(sdb_flush(cstate, sdb_pending), xx, erc20_denom_id(sdb_flush(cstate, sdb_pending), xx, dd))
+            ==> erc20_pair(sdb_flush(cstate, sdb_pending), xx, erc20_denom_id(sdb_flush(cstate, sdb_pending), xx, dd)).Denom == dd
+                && erc20_pair_id(sdb_flush(cstate, sdb_pending), xx, hex_addr(erc20_pair(sdb_flush(cstate, sdb_pending), xx, erc20_denom_id(sdb_flush(cstate, sdb_pending), xx, dd)).Erc20Address)) == erc20_denom_id(sdb_flush(cstate, sdb_pending), xx, dd)
+    let sdb = dyn(evm.StateDB, *SDB)
+    let setup_ok = ret(RunSetup, 1, 5) == nil
+    let rctx = ret(RunSetup, 1, 0)
+    let m = ret(RunSetup, 1, 2)
+    let name = ret(RunSetup, 1, 2).Name
+    let gas0 = ret(RunSetup, 1, 3)
+    let rargs = ret(RunSetup, 1, 4)
+    let meter = ctx_gasmeter(rctx)
+    let flushed = sdb_flush(old(cstate), sdb_pending)
+    modifies cstate, bank_bal, bank_supply, sdb_delta, gasw, gas_base, sdb_flushes, *contract
+    call HandleGasError requires site: contract != nil && err != nil && gas_consumed(ctx_gasmeter(ctx)) >= initialGas
+    // the pending StateDB changes are written to the store once, before the query reads it
+    call Commit requires once: s == sdb && sdb_flushes == old(sdb_flushes) && cstate == old(cstate)
+    // dispatch: a query runs only under its own name, with RunSetup's context / method / arguments
+    call Precompile.Balances requires named: method.Name == "balances"
+    call Precompile.TotalSupply requires named: method.Name == "totalSupply"
+    call Precompile.SupplyOf requires named: method.Name == "supplyOf"
+    call Precompile.Balances requires entry: ctx == rctx && method == m && input == rargs
+    call Precompile.TotalSupply requires entry: ctx == rctx && method == m && input == rargs
+    call Precompile.SupplyOf requires entry: ctx == rctx && method == m && input == rargs
+    ensures setup_refused: !setup_ok ==> result.1 != nil && len(result.0) == 0 && cstate == old(cstate) && sdb_flushes == old(sdb_flushes) && contract.Gas == old(contract.Gas)
+            && sdb_delta == old(sdb_delta)
+    ensures unknown_name: setup_ok && !BankIsQuery(name) ==> result.1 != nil
+    ensures flushed_once: setup_ok ==> sdb_flushes == old(sdb_flushes) + 1
+    ensures gas_charged: result.1 == nil ==> contract.Gas == old(contract.Gas) - (gasw[meter] - gas0) && gasw[meter] - gas0 <= old(contract.Gas)
+    ensures out_of_gas: setup_ok && gasw[meter] - gas0 > old(contract.Gas) ==> result.1 != nil
+    ensures error_no_output: result.1 != nil ==> len(result.0) == 0 && contract.Gas == old(contract.Gas)
+    ensures contract_kept: contract.CallerAddress == old(contract.CallerAddress) && contract.Input == old(contract.Input) && contract.value == old(contract.value)
+    // C05 / C16: a bank precompile call is a pure query - the store is the flushed store, nothing else is written
+    ensures query_frame: result.1 == nil ==> cstate == flushed && sdb_delta == old(sdb_delta)
+@*/
